@@ -7,7 +7,7 @@
 // $Source$
 // $Revision$
 
-use fpdec_core::{i128_div_rounded, ten_pow, Round};
+use fpdec_core::{checked_mul_pow_ten, i128_div_rounded, ten_pow, Round};
 
 use crate::Decimal;
 #[cfg(doc)]
@@ -39,7 +39,17 @@ impl Round for Decimal {
         if n_frac_digits >= self.n_frac_digits as i8 {
             self
         } else if n_frac_digits < self.n_frac_digits as i8 - 38 {
-            Self::ZERO
+            // |self| < 10^-n / 5, so the result is either 0 or +-10^-n,
+            // depending on the rounding mode.
+            let coeff = i128_div_rounded(self.coeff.signum(), 10, None);
+            if coeff == 0 {
+                Self::ZERO
+            } else {
+                Self {
+                    coeff: coeff * ten_pow(n_frac_digits.unsigned_abs()),
+                    n_frac_digits: 0,
+                }
+            }
         } else {
             // n_frac_digits < self.n_frac_digits
             let shift: u8 = (self.n_frac_digits as i8 - n_frac_digits) as u8;
@@ -86,7 +96,19 @@ impl Round for Decimal {
         if n_frac_digits >= self.n_frac_digits as i8 {
             Some(self)
         } else if n_frac_digits < self.n_frac_digits as i8 - 38 {
-            Some(Self::ZERO)
+            // |self| < 10^-n / 5, so the result is either 0 or +-10^-n,
+            // depending on the rounding mode.
+            let coeff = i128_div_rounded(self.coeff.signum(), 10, None);
+            if coeff == 0 {
+                Some(Self::ZERO)
+            } else {
+                checked_mul_pow_ten(coeff, n_frac_digits.unsigned_abs()).map(
+                    |coeff| Self {
+                        coeff,
+                        n_frac_digits: 0,
+                    },
+                )
+            }
         } else {
             // n_frac_digits < self.n_frac_digits
             let shift: u8 = (self.n_frac_digits as i8 - n_frac_digits) as u8;
